@@ -257,7 +257,8 @@ def a_run_case(case, universe):
                 key='a: prior=%s ; klong[%r] = %s ; %s' % (prior, name, label, what), observed=osh(got),
                 expected='ok:' + show(want), case={'part': 'a', 'value': label, 'name': name, 'prior': prior, 'what': what},
                 snippet=snippet, group=grp))
-    out['samples'].append(['klong[%r] = %s' % (name, label)] + ['%s -> %s' % (w, osh(g)) for w, g in obs[:3]])
+    if prior == 'fresh' and label in ('[1, 2, 3]', 'None', 'np.array([1.5, 2.5])'):
+        out['samples'].append(['a', 'klong[%r] = %s' % (name, label)] + ['%s -> %s' % (w, osh(g)) for w, g in obs[:4]])
     return out
 
 
@@ -451,6 +452,8 @@ def b_run_case(case, sigs):
             grp = 'callable-stored-over-existing-name-not-wrapped'
         elif not sig_is_prefix(sig):
             grp = 'arguments-looked-up-by-parameter-name-not-position'
+        elif form == 'pyget' and any(_is_mixed(a) for a in pyargs):
+            grp = 'wrapper-converts-list-arguments-with-np.asarray'
         else:
             grp = None
         pre = (stmt + '\n') if stmt else ''
@@ -460,8 +463,8 @@ def b_run_case(case, sigs):
             key='b: prior=%s ; %s ; %s' % (prior, sig_text(sig), how), observed=obs, expected=exp,
             case={'part': 'b', 'sig': [list(p) for p in sig], 'form': form, 'args': A, 'prior': prior},
             snippet=snippet, group=grp))
-    if si % 7 == 3 and form in ('direct', 'over') and A[0] == S('s'):
-        out['samples'].append([sig_text(sig), how, obs])
+    if si % 7 == 3 and form in ('direct', 'over', 'proj:1') and all(a == S('s') for a in A) and prior == 'fresh':
+        out['samples'].append(['b', sig_text(sig), how, obs])
     return out
 
 
@@ -521,7 +524,10 @@ class CModel:
     """name -> binding; two wrapper slots each remembering the binding they captured."""
 
     def __init__(self):
-        self.binding = None          # None | ('k', body index) | ('p', arity)
+        # None | ('k', body index) | ('p', arity, over): `over` = the Python callable was stored while the name was
+        # bound.  The model gives `over` no meaning; it only keeps such states apart in the search, because the
+        # implementation stores the callable differently in that case (a defect this check reports)
+        self.binding = None
         self.caps = [None, None]
 
     def key(self):
@@ -534,7 +540,7 @@ class CModel:
             self.binding = ('k', op[1])
             return ('ok',)
         if k == 'pydef':
-            self.binding = ('p', op[1])
+            self.binding = ('p', op[1], int(self.binding is not None))
             return ('ok',)
         if k == 'del':
             if self.binding is None:
@@ -557,8 +563,9 @@ def c_selftest_model():
              (('read', 0), ('ok',)), (('call', 0, ()), ('call', ('k', 1))), (('def', 4), ('ok',)),
              (('call', 0, ()), ('call', ('k', 4))), (('read', 1), ('ok',)), (('del',), ('ok',)),
              (('call', 0, ()), ('call', ('k', 1))), (('call', 1, ()), ('call', ('k', 4))), (('pydef', 2), ('ok',)),
-             (('call', 0, ()), ('call', ('p', 2))), (('read', 0), ('ok',)), (('del',), ('ok',)),
-             (('call', 0, ()), ('call', ('p', 2))), (('call', 1, ()), ('call', ('k', 4)))]
+             (('call', 0, ()), ('call', ('p', 2, 0))), (('read', 0), ('ok',)), (('def', 1), ('ok',)),
+             (('pydef', 1), ('ok',)), (('call', 0, ()), ('call', ('p', 1, 1))), (('del',), ('ok',)),
+             (('call', 0, ()), ('call', ('p', 2, 0))), (('call', 1, ()), ('call', ('k', 4)))]
     for op, want in table:
         got = m.step(op)
         if got != want:
@@ -659,23 +666,30 @@ def c_judge(env, op, hist):
         args = op[2]
         where = ('f bound to %s' % _bind_text(bound_before, bodies) if bound_before is not None
                  else 'f deleted, wrapper captured %s' % _bind_text(cap_before, bodies))
-        if bound_before is not None and cap_before != bound_before and bound_before[0] == 'p':
+        py_involved = 'p' in (bound_before[0] if bound_before else '', cap_before[0] if cap_before else '')
+        if bound_before is not None and cap_before != bound_before and py_involved:
             where += ', wrapper captured %s' % _bind_text(cap_before, bodies)
         key = 'c: %s ; wrapper(%s)' % (where, ', '.join(pyrepr(a) for a in args))
         arity = bodies[target[1]][1] if target[0] == 'k' else target[1]
         calls = [tuple(cn(a) for a in c[1]) for c in env.log[n_log:]]
+        # root causes where a Python callable is involved (phase B)
+        if bound_before is not None and cap_before != bound_before and cap_before[0] == 'p' and cap_before[2]:
+            py_grp = 'callable-stored-over-existing-name-not-wrapped'     # klong['f'] handed out the bare function
+        elif bound_before is not None and cap_before != bound_before and bound_before[0] == 'p':
+            py_grp = 'wrapper-does-not-follow-rebinding-to-python-callable'
+        else:
+            py_grp = None
         if len(args) != arity:
             if got[0] != 'exc' or calls:
                 grp = 'arity-inference-ignores-monad-operand' if target[0] == 'k' and _monad_only(bodies[target[1]][0]) else None
-                if target[0] == 'p' and cap_before != bound_before and bound_before is not None:
-                    grp = 'wrapper-does-not-follow-rebinding-to-python-callable'
-                v(key, osh(got), 'an exception (function takes %d argument%s)' % (arity, '' if arity == 1 else 's'), grp)
+                v(key, osh(got), 'an exception (function takes %d argument%s)' % (arity, '' if arity == 1 else 's'),
+                  py_grp or grp)
         elif target[0] == 'p':
             want_calls = [tuple(cn(a) for a in args)]
             obs = '%s calls=%s' % (osh(got), _calls_show(calls))
             want = 'ok:%d calls=%s' % (100 + n_log, _calls_show(want_calls))
             if obs != want:
-                v(key, obs, want, 'wrapper-does-not-follow-rebinding-to-python-callable')
+                v(key, obs, want, py_grp)
         else:
             call = 'f(%s)' % ';'.join(lit(cn(a)) for a in args)
             if bound_before is not None:
@@ -692,14 +706,18 @@ def c_judge(env, op, hist):
                     grp = 'wrapper-converts-list-arguments-with-np.asarray'
                 else:
                     grp = None
-                v(key, osh(got), osh(ref) + ' (= klong(%r))' % call, grp)
+                v(key, osh(got) + (' calls=' + _calls_show(calls) if calls else ''), osh(ref) + ' (= klong(%r))' % call,
+                  py_grp or grp)
     return viol, osh(got)
 
 
 def _bind_text(b, bodies):
     if b is None:
         return 'nothing'
-    return bodies[b[1]][0] if b[0] == 'k' else 'a Python callable of %d parameter%s' % (b[1], '' if b[1] == 1 else 's')
+    if b[0] == 'k':
+        return bodies[b[1]][0]
+    return 'a Python callable of %d parameter%s%s' % (b[1], '' if b[1] == 1 else 's',
+                                                      ' (stored over an existing binding)' if b[2] else '')
 
 
 def _monad_only(body):
@@ -736,7 +754,7 @@ def c_make_expand(bodies, arg_values, with_py):
                 out['outcomes'].add(o[:40])
         writes =[('def', i) for i in range(len(bodies)) if env.m.binding != ('k', i)]
         if with_py:
-            writes += [('pydef', n) for n in C_PY if env.m.binding != ('p', n)]
+            writes += [('pydef', n) for n in C_PY if (env.m.binding or ())[:2] != ('p', n)]
         writes += [('del',), ('read', 0), ('read', 1)]
         for op in writes:
             e2 = c_build(hist, bodies)
@@ -900,7 +918,7 @@ def d_run_case(case, moddir):
                 case={'part': 'd', 'kind': kind, 'mod': mod, 'name': name, 'how': how, 'form': form, 'args': A},
                 snippet=SNIP_HEAD + 'klong(%r)\nprint(repr(klong(%r)))\n' % (imp, text), group=None))
         if form == 'direct' and A == D_TABLE[0][3][0]:
-            out['samples'].append([imp, text, osh(got)])
+            out['samples'].append(['d', imp, text, osh(got)])
         return out
     _, fname, k, how, form, A = case
     path = os.path.join(moddir, D_MODNAME)
@@ -930,7 +948,7 @@ def d_run_case(case, moddir):
             key='d: %s ; %s' % (imp.replace(moddir, '<scratch>'), text), observed=obs, expected=exp,
             case={'part': 'd', 'kind': kind, 'fname': fname, 'k': k, 'how': how, 'form': form, 'args': A},
             snippet='# module source: mc.props.c09_interop.D_MODULE_SRC written to <scratch>/%s/__init__.py\n' % D_MODNAME
-                    + SNIP_HEAD + 'klong(%r)\nprint(repr(klong(%r)))\n' % (imp, text),
+                    + SNIP_HEAD + 'klong(%r)\nprint(repr(klong(%r)))\n' % (imp.replace(moddir, '<scratch>'), text),
             group='import-wildcard' if fname in ('allopt', 'var') else None))
     return out
 
@@ -947,6 +965,10 @@ def write_module(moddir):
 # self-test of the oracle tables
 
 def selftest():
+    return 'C09: %d examples of the call-form table and of the wrapper model reproduced' % _selfcheck()
+
+
+def _selfcheck():
     ex = [
         ('direct', 2, (I(1), R(2.5)), 'f(1;2.5)', [(I(1), R(2.5))], I(100)),
         ('proj:1', 2, (I(1), S('s')), 'g::f(;"s");g(1)', [(I(1), S('s'))], I(100)),
@@ -996,14 +1018,13 @@ def _work_factory(quick, universe, sigs, moddir):
                               snippet=None, group=None))
             r['n_' + case[0][0]] = r['n']
             runner.merge_counts(total, r)
-        total['samples'] = sorted(total['samples'], key=repr)[:3]
         return total
     return work
 
 
 def run(cfg):
     rep = runner.Report(PID, 'model_checking')
-    n_self = selftest()
+    n_self = _selfcheck()
     quick = cfg.quick
     universe = a_universe(quick)
     sigs, bcases = b_cases(quick)
@@ -1020,8 +1041,14 @@ def run(cfg):
 
     # part (c)
     bodies = C_BODIES_Q if quick else C_BODIES_T
-    ca = bfs.search(c_make_expand(bodies, C_ARG_VALUES_Q if quick else C_ARG_VALUES_T, False), cfg, cfg.pick(4, 5))
-    cb = bfs.search(c_make_expand(C_BODIES_B, C_ARG_VALUES_B, True), cfg, cfg.pick(4, 5))
+    # every fan-out forks cfg.jobs workers per BFS layer, which costs more than it saves for a few thousand
+    # sub-millisecond transitions (measured: quick 11 s CPU inline vs > 50 s CPU forked): small searches run inline
+    cfg1 = runner.Cfg(cfg.pid, cfg.tier, cfg.seed, 1)
+    ca = bfs.search(c_make_expand(bodies, C_ARG_VALUES_Q if quick else C_ARG_VALUES_T, False), cfg1 if quick else cfg,
+                    cfg.pick(4, 6), init_key=CModel().key())
+    cb = bfs.search(c_make_expand(C_BODIES_B, C_ARG_VALUES_B, True), cfg1, cfg.pick(4, 9), init_key=CModel().key())
+    # thorough: depth 6 closes the model's state space ((bodies+1)^3 states, all reachable in <= 5 operations), so
+    # every wrapper call is judged in every state and the last layer finds no new state
 
     def fold(vs):
         best = {}
@@ -1037,7 +1064,8 @@ def run(cfg):
     viol = sorted(get_vs(total), key=lambda v: (v['key'], v['observed']))
     viol += fold(get_vs(ca)) + fold(get_vs(cb))
     rep.extend_violations(viol)
-    total['samples'] = sorted(total['samples'], key=repr)
+    allsamples = sorted(total['samples'], key=repr)
+    total['samples'] = [s for p in 'abd' for s in [x for x in allsamples if x[0] == p][:3]]
 
     n_prod = total['n']
     trans = n_prod + ca['transitions'] + cb['transitions']
@@ -1048,7 +1076,7 @@ def run(cfg):
         'states': ca['states'] + cb['states'],
         'transitions': trans,
         'traces_validated_against_impl': trans,
-        'samples': total['samples'][:6] + [
+        'samples': total['samples'] + [
             ["klong('f::{x-y}')", "w0 = klong['f']", "klong('f::{x+1}')", "del klong['f']", 'w0(3)  # falls back to {x-y}: must raise'],
         ],
         'exhaustive': not (ca['capped'] or cb['capped']),
